@@ -1,7 +1,12 @@
 (* C20 -- lemmas about the small_vector model. *)
 From Coq Require Import ZArith List Bool Arith Lia.
-From VV Require Import SmallVec.SmallVecAst Gen.SmallVecOps SmallVec.SmallVecDefs.
+From VV Require Import SmallVec.SmallVecAst Gen.SmallVecOps SmallVec.SmallVecModelled SmallVec.SmallVecDefs.
 Import ListNotations.
+
+(* the member definitions of small_vector.tcc, as extracted on this run, are
+   the text the hand-written methods were modelled on *)
+Lemma bodies_as_modelled : method_bodies = modelled_bodies.
+Proof. reflexivity. Qed.
 
 Section Proofs.
   Variable P : params.
